@@ -154,8 +154,15 @@ Print Assumptions C04_symmetrisation.
 
 (* the code's formula: for ANY exact eigendecomposition V diag(lam) V^-1 of the symmetrised matrix,
    (sqrt_pi_inv V) diag(exp(lam t)) (V^-1 sqrt_pi) satisfies P(0) = I, the semigroup law, has
-   generator Q, is continuous, and has rows summing to one when the rows of Q sum to zero *)
-Theorem C04_symmetric_p_t : forall n Q pi V W lam,
+   generator Q, is continuous, and has rows summing to one when the rows of Q sum to zero.
+   FULL STATEMENT WANTED (C04): "P(t) = exp(Qt), and every row of P(t) is a probability vector".
+   PROVED HERE (hence _partial): everything except
+     (1) P(t) IS exp(Qt): follows from the four facts below by the classical uniqueness theorem,
+         which is not formalised (no matrix exponential in the installed libraries);
+     (2) entrywise 0 <= P_ij(t) for a general rate matrix (needs exp(Qt) = lim (I + Qt/m)^m or an
+         ODE comparison argument; not formalised).  Proved for the Jukes-Cantor closed forms
+         (C04_general_jc69); for all other models checked numerically on every run (p-range). *)
+Theorem C04_symmetric_p_t_partial : forall n Q pi V W lam,
   (forall i, (i < n)%nat -> 0 < vget NumR pi i) -> wf n Q -> wf n V -> wf n W -> length lam = n ->
   mmul NumR n V W = mident NumR n -> mmul NumR n W V = mident NumR n ->
   mmul NumR n (map (fun row => vmul NumR row lam) V) W = symmetrised NumR n Q pi ->
@@ -167,7 +174,7 @@ Theorem C04_symmetric_p_t : forall n Q pi V W lam,
   (List.Forall (fun row => nsum NumR row = 0) Q ->
    forall t i, (i < n)%nat -> Sumn n (fun j => mget NumR (P t) i j) = 1).
 Proof. exact symmetric_p_t. Qed.
-Print Assumptions C04_symmetric_p_t.
+Print Assumptions C04_symmetric_p_t_partial.
 
 (* ---------------------------------------------------------------- Jukes-Cantor closed forms *)
 
